@@ -997,6 +997,19 @@ def replay_pearson_w(payload):
                     if bool(got) != want:
                         fail("verdict_boundary", {"alpha_is_p": want}, [repr(got), p, a], want, c)
                         break
+                # the SAME DataFrame object with its rows reordered in place: the specified value again (row-order invariance; nothing may
+                # be remembered per frame object)
+                if len(df) > 2:
+                    perm = list(range(len(df)))
+                    rng.shuffle(perm)
+                    df[:] = df.iloc[perm].values
+                    ncalls += 1
+                    try:
+                        c2, p2 = fn(X, Y, Z, df, boolean=False)
+                        if not close(float(c2), r_exp, 1e-8) or not (abs(float(p2) - p_exp) <= 1e-7):
+                            fail("same_frame_rows_reordered_in_place", feats, [float(c2), float(p2)], [r_exp, p_exp], c)
+                    except Exception as ex:  # noqa
+                        fail("raises", feats, repr(ex)[:200], [r_exp, p_exp], c)
             else:
                 # two-run relation: the re-parametrised run must reproduce the base run (and hence the specified value)
                 kind = "shift" if tr["a"] == 1 else ("scale" if tr["b"] == 0 else "affine")
